@@ -3,9 +3,11 @@
   (src/hb/aat_layout_morx_table.rs, aat_map.rs, and the buffer primitives of buffer.rs it uses).
 
   The model mirrors the Rust control flow loop by loop, including the places where Rust would panic
-  (these become `Except.error`) and including the known defects of the buffer (D5: forward copy over an
-  overlapping range in `move_to`; D6: `ensure` = `Vec::resize` truncates; D4: dead "extend start" loop;
-  D17: the non-contextual subtable tests the range of a never-advanced `idx`).
+  (these become `Except.error`). Three loops/guards of buffer.rs exist in two variants each; which one the
+  current source has is regenerated into Gen/Buf.lean (`ensureGrowOnly`, `moveToRewindReversed`,
+  `extendStartGuard`), so the model follows the crate across the repairs of D6 / D5 / D4. D19 (shift_forward
+  reports a refused allocation) and the u32 ligature accumulator are mirrored as repaired. D17 (the
+  non-contextual subtable tests the range of a never-advanced `idx`) is reproduced.
 
   What is *not* modelled (and therefore not compared by the correspondence): glyph masks / glyph flags
   (`unsafe_to_break*` only contribute their asserts and index checks), glyph props from GDEF
@@ -15,10 +17,12 @@
   Buffer abstraction: `Buf` is Rust's representation (info vector, the `pos` vector viewed as separate
   output, idx/len/out_len, have_output/have_separate_output, Vec lengths). The *list* view of it is
   `Buf.view` (Lemmas/Morx.lean); Spec/Aat.lean works on plain lists. Where the list view is only right
-  if `move_to`/`ensure` behave like list operations is marked with `-- LIST-ASSUMPTION` below: these are
-  exactly the places D5/D6 break in the real code (and in this model, which reproduces them).
+  if `move_to`/`ensure` behave like list operations is marked with `LIST-ASSUMPTION` below: with the repaired
+  variants these are theorems about the shared buffer model (Lemmas/BufZipper.lean: `ensure_spec`,
+  `shiftForward_spec`, `moveTo_spec`, …); with the old variants they are false (D5/D6).
 -/
 import RbModel.Gen.Morx
+import RbModel.Buf
 
 namespace RbModel.Morx
 open RbModel.Gen.Morx
@@ -101,134 +105,73 @@ def outSet (b : Buf) (i : Nat) (g : G) : M Buf :=
   if b.sepOut then do let o ← wr b.out i g; pure { b with out := o }
   else do let o ← wr b.info i g; pure { b with info := o }
 
-/-- src: buffer.rs::ensure — LIST-ASSUMPTION (D6): `resize` shrinks both vectors to `size` when
-    `len ≤ size < Vec::len()`, which can cut the separate out-buffer below `out_len`. -/
-def ensure (b : Buf) (size : Nat) : Buf × Bool :=
-  if size < b.len then (b, true)
-  else if size > b.maxLen then ({ b with successful := false }, false)
-  else ({ b with info := resize b.info size, out := resize b.out size }, true)
+/-! ### the in/out primitives: delegated to the shared buffer model (RbModel/Buf.lean)
 
-/-- src: buffer.rs::make_room_for -/
-def makeRoomFor (b : Buf) (numIn numOut : Nat) : M (Buf × Bool) := do
-  let (b, ok) := ensure b (b.outLen + numOut)
-  if !ok then return (b, false)
-  if !b.sepOut && b.outLen + numOut > b.idx + numIn then
-    if !b.haveOutput then throw .assert
-    let b := { b with sepOut := true }
-    let b ← forUp b.outLen (fun i b => do let g ← rd b.info i; outSet b i g) b
-    return (b, true)
-  return (b, true)
+The primitives that work on the out-buffer (`move_to`, `next_glyph(s)`, `copy_glyph`, `output_glyph`,
+`replace_glyph`, `sync`, and below them `ensure` / `make_room_for` / `shift_forward`) are *the* definitions
+of RbModel/Buf.lean — one model of buffer.rs for all cores, following the crate through the generated
+variants of Gen/Buf.lean (`ensureGrowOnly`, `moveToRewindReversed`, `extendStartGuard`). Here they are run
+on the embedding `toS` of this file's lighter record (glyph id + cluster) and read back with `ofS`.
+LIST-ASSUMPTION: that these primitives act on the logical sequence `out[0..out_len) ++ info[idx..len)` like
+list operations is proved there for the repaired variants (Lemmas/BufZipper.lean: `moveTo_spec`,
+`nextGlyph_spec`, `replaceGlyph_spec`, `outputGlyph_spec`, `copyGlyph_spec`, `sync_spec`) and used for the
+insertion block in Props/C17.lean (`C17_inplace_zipper_partial`); with the old variants (D5/D6) it is false. -/
 
-/-- src: buffer.rs::shift_forward — LIST-ASSUMPTION (D6, D19): `ensure(len + count)` truncates the
-    out-buffer; a refused `ensure` returns silently and the caller asserts. -/
-def shiftForward (b : Buf) (count : Nat) : M Buf := do
-  if !b.haveOutput then throw .assert
-  let (b, ok) := ensure b (b.len + count)
-  if !ok then return b
-  if b.idx > b.len then throw .wrap
-  let info ← forDown (b.len - b.idx)
-    (fun i a => do let g ← rd a (b.idx + i); wr a (b.idx + count + i) g) b.info
-  let info ← if b.idx + count > b.len then
-      forUp (b.idx + count - b.len) (fun j a => wr a (b.len + j) G.dflt) info
-    else pure info
-  return { b with info := info, len := b.len + count, idx := b.idx + count }
+def toInfo (g : G) : RbModel.Info := { gid := g.gid, cluster := g.cl }
+def ofInfo (x : RbModel.Info) : G := ⟨x.gid, x.cluster⟩
 
-/-- src: buffer.rs::move_to — LIST-ASSUMPTION (D5): the rewind loop copies forward, which duplicates
-    glyphs when source and destination overlap in the same vector (no separate output). -/
-def moveTo (b : Buf) (i : Nat) : M (Buf × Bool) := do
-  if !b.haveOutput then
-    if i > b.len then throw .assert
-    return ({ b with idx := i }, true)
-  if !b.successful then return (b, false)
-  if b.idx > b.len then throw .wrap
-  if i > b.outLen + (b.len - b.idx) then throw .assert
-  if b.outLen < i then
-    let count := i - b.outLen
-    let (b, ok) ← makeRoomFor b count count
-    if !ok then return (b, false)
-    let b ← forUp count (fun j b => do let g ← rd b.info (b.idx + j); outSet b (b.outLen + j) g) b
-    return ({ b with idx := b.idx + count, outLen := b.outLen + count }, true)
-  else if b.outLen > i then
-    let count := b.outLen - i
-    let b ← if b.idx < count then shiftForward b (count - b.idx) else pure b
-    if b.idx < count then throw .assert
-    let b := { b with idx := b.idx - count, outLen := b.outLen - count }
-    let b ← forUp count
-      (fun j b => do let g ← outGet b (b.outLen + j); let a ← wr b.info (b.idx + j) g
-                     pure { b with info := a }) b
-    return (b, true)
-  else return (b, true)
+/-- this file's buffer as a buffer of the shared model (masks and payload words zero) -/
+def toS (b : Buf) : RbModel.Buf :=
+  { info := b.info.toList.map toInfo, out := b.out.toList.map toInfo, idx := b.idx, len := b.len,
+    outLen := b.outLen, haveOutput := b.haveOutput, sepOut := b.sepOut, successful := b.successful,
+    level := b.level, maxLen := b.maxLen, maxOps := b.maxOps }
+
+/-- read a shared-model buffer back (direction, which the shared model does not carry, from `b0`) -/
+def ofS (b0 : Buf) (s : RbModel.Buf) : Buf :=
+  { b0 with info := (s.info.map ofInfo).toArray, out := (s.out.map ofInfo).toArray, idx := s.idx, len := s.len,
+            outLen := s.outLen, haveOutput := s.haveOutput, sepOut := s.sepOut, successful := s.successful,
+            maxLen := s.maxLen, maxOps := s.maxOps }
+
+def liftS {α : Type} : RbModel.M α → M α
+  | .ok a => .ok a
+  | .error .oob => .error .oob
+  | .error .assert => .error .assert
+
+/-- src: buffer.rs::move_to (shared model: `RbModel.Buf.moveTo`) -/
+def moveTo (b : Buf) (i : Nat) : M (Buf × Bool) :=
+  match liftS ((toS b).moveTo i) with
+  | .ok (s, r) => .ok (ofS b s, r)
+  | .error p => .error p
+
+def viaS (b : Buf) (f : RbModel.Buf → RbModel.M RbModel.Buf) : M Buf :=
+  match liftS (f (toS b)) with
+  | .ok s => .ok (ofS b s)
+  | .error p => .error p
 
 /-- src: buffer.rs::next_glyph -/
-def nextGlyph (b : Buf) : M Buf := do
-  if b.haveOutput then
-    if b.sepOut || b.outLen != b.idx then
-      let (b, ok) ← makeRoomFor b 1 1
-      if !ok then return b
-      let g ← rd b.info b.idx
-      let b ← outSet b b.outLen g
-      return { b with outLen := b.outLen + 1, idx := b.idx + 1 }
-    return { b with outLen := b.outLen + 1, idx := b.idx + 1 }
-  return { b with idx := b.idx + 1 }
+def nextGlyph (b : Buf) : M Buf := viaS b RbModel.Buf.nextGlyph
 
 /-- src: buffer.rs::next_glyphs -/
-def nextGlyphs (b : Buf) (n : Nat) : M Buf := do
-  if b.haveOutput then
-    if b.sepOut || b.outLen != b.idx then
-      let (b, ok) ← makeRoomFor b n n
-      if !ok then return b
-      let b ← forUp n (fun i b => do let g ← rd b.info (b.idx + i); outSet b (b.outLen + i) g) b
-      return { b with outLen := b.outLen + n, idx := b.idx + n }
-    return { b with outLen := b.outLen + n, idx := b.idx + n }
-  return { b with idx := b.idx + n }
+def nextGlyphs (b : Buf) (n : Nat) : M Buf := viaS b (fun s => s.nextGlyphs n)
 
 /-- src: buffer.rs::copy_glyph -/
-def copyGlyph (b : Buf) : M Buf := do
-  let (b, ok) ← makeRoomFor b 0 1
-  if !ok then return b
-  let g ← rd b.info b.idx
-  let b ← outSet b b.outLen g
-  return { b with outLen := b.outLen + 1 }
+def copyGlyph (b : Buf) : M Buf := viaS b RbModel.Buf.copyGlyph
 
 /-- src: buffer.rs::skip_glyph -/
 def skipGlyph (b : Buf) : Buf := { b with idx := b.idx + 1 }
 
 /-- src: buffer.rs::output_glyph -/
-def outputGlyph (b : Buf) (gid : Nat) : M Buf := do
-  let (b, ok) ← makeRoomFor b 0 1
-  if !ok then return b
-  if b.idx == b.len && b.outLen == 0 then return b
-  let g ← if b.idx < b.len then rd b.info b.idx else outGet b (b.outLen - 1)
-  let b ← outSet b b.outLen { g with gid := gid }
-  return { b with outLen := b.outLen + 1 }
+def outputGlyph (b : Buf) (gid : Nat) : M Buf := viaS b (fun s => s.outputGlyph gid)
 
 /-- src: buffer.rs::replace_glyph -/
-def replaceGlyph (b : Buf) (gid : Nat) : M Buf := do
-  if b.sepOut || b.outLen != b.idx then
-    let (b, ok) ← makeRoomFor b 1 1
-    if !ok then return b
-    let g ← rd b.info b.idx
-    let b ← outSet b b.outLen g
-    let g ← outGet b b.outLen
-    let b ← outSet b b.outLen { g with gid := gid }
-    return { b with idx := b.idx + 1, outLen := b.outLen + 1 }
-  let g ← outGet b b.outLen
-  let b ← outSet b b.outLen { g with gid := gid }
-  return { b with idx := b.idx + 1, outLen := b.outLen + 1 }
+def replaceGlyph (b : Buf) (gid : Nat) : M Buf := viaS b (fun s => s.replaceGlyph gid)
 
 /-- src: buffer.rs::clear_output -/
 def clearOutput (b : Buf) : Buf :=
   { b with haveOutput := true, idx := 0, outLen := 0, sepOut := false }
 
 /-- src: buffer.rs::sync -/
-def sync (b : Buf) : M Buf := do
-  if !b.haveOutput then throw .assert
-  if b.idx > b.len then throw .assert
-  if !b.successful then
-    return { b with haveOutput := false, outLen := 0, idx := 0 }
-  let b ← nextGlyphs b (b.len - b.idx)
-  let b := if b.sepOut then { b with info := b.out, out := b.info, sepOut := false } else b
-  return { b with len := b.outLen, haveOutput := false, outLen := 0, idx := 0 }
+def sync (b : Buf) : M Buf := viaS b (fun s => do let r ← s.sync; pure r.1)
 
 /-- src: buffer.rs::reverse / reverse_range(0, len) (positions do not exist yet at this stage). -/
 def reverse (b : Buf) : M Buf := do
@@ -253,13 +196,13 @@ def extendEnd (a : Array G) (len : Nat) : (fuel : Nat) → (e : Nat) → M Nat
     else pure e
 
 /-- `while guard && info[start-1].cluster == info[start].cluster { start -= 1 }` with the code's own
-    guard `end < start` (D4: HarfBuzz has `idx < start`). -/
-def extendStart (a : Array G) (e : Nat) : (fuel : Nat) → (s : Nat) → M Nat
+    guard: `Gen.Buf.extendStartGuard` = 1: `self.idx < start` (HarfBuzz, repaired D4), 0: `end < start`. -/
+def extendStart (a : Array G) (e idx : Nat) : (fuel : Nat) → (s : Nat) → M Nat
   | 0, s => pure s
   | fuel + 1, s => do
-    if e < s then
+    if (if RbModel.Gen.Buf.extendStartGuard == 1 then idx < s else e < s) then
       let x ← rd a (s - 1); let y ← rd a s
-      if x.cl == y.cl then extendStart a e fuel (s - 1) else pure s
+      if x.cl == y.cl then extendStart a e idx fuel (s - 1) else pure s
     else pure s
 
 /-- `while i != 0 && out_info()[i-1].cluster == c0 { set_cluster(out_info[i-1], cluster); i -= 1 }` -/
@@ -282,7 +225,7 @@ def mergeClustersImpl (b : Buf) (start end_ : Nat) : M Buf := do
   let gl ← rd b.info (end_ - 1)
   let end_ ← if cluster != gl.cl then extendEnd b.info b.len (b.len - end_) end_ else pure end_
   let gs ← rd b.info start
-  let start ← if cluster != gs.cl then extendStart b.info end_ start start else pure start
+  let start ← if cluster != gs.cl then extendStart b.info end_ b.idx start start else pure start
   let gs ← rd b.info start
   let b ← if b.idx == start && gs.cl != cluster then mergeBackOut gs.cl cluster b.outLen b else pure b
   let info ← forUp (end_ - start) (fun k a => setCl a (start + k) cluster) b.info
@@ -457,8 +400,8 @@ structure Ctx where
     every iteration either spends `max_ops` (a don't-advance step, or a transition that inserts glyphs pays
     for them) or, with `max_ops` unchanged, consumes a glyph of the look-ahead; once `max_ops ≤ 0` nothing is
     inserted any more and every iteration advances. A failed allocation (`successful = false`) ends the loop
-    at the next test. The look-ahead alone may *grow* when `max_ops` is spent (insertions; and the
-    `glyphs.get(i)?` early return of the insertion subtable, which leaves the buffer rewound at the mark). -/
+    at the next test. The look-ahead alone may *grow* when `max_ops` is spent (insertions that stay in front
+    of the cursor). -/
 def psi (b : Buf) : Nat × Nat :=
   if b.successful then (b.maxOps.toNat + 1, b.len - b.idx + 1) else (0, 0)
 
@@ -739,7 +682,7 @@ def ligLoop (t : LigTable) : (cursor : Nat) → (actionIdx ligIdx : Nat) → CS 
       match t.components compIdx with
       | none => pure (cs, b)
       | some comp =>
-        let ligIdx := (ligIdx + comp) % 65536
+        let ligIdx := (ligIdx + comp) % 2 ^ 32      -- `ligature_idx: u32`
         let r : Option (CS × Buf) ← (if action &&& (LIG_ACTION_STORE ||| LIG_ACTION_LAST) != 0 then do
             match t.ligatures ligIdx with
             | none => pure none
@@ -790,62 +733,102 @@ def ligCtx (t : LigTable) : Ctx where
 
 /-! ### insertion (type 5) -/
 
+/-! The insertion transition works on the out-buffer throughout, so its body is written directly on the shared
+    buffer model (`RbModel.Buf`, namespace `InsS`) and run through the embedding once per transition. Its list
+    semantics is `C17_inplace_zipper` (Props/C17.lean), from the zipper specs of Lemmas/BufZipper.lean. -/
+namespace InsS
+
 /-- `for i in 0..count { output_glyph(glyphs.get(start + i)?) }`; when the `?` fires the transition
-    returns with the buffer as it is at that moment (flag `false`). -/
-def insertGlyphs' (glyphs : Nat → Option Nat) (start : Nat) : (count : Nat) → Buf → M (Buf × Bool)
+    returns with the buffer as it is at that moment (flag `false`; unreachable after `clampCount` for a
+    table whose glyph list is an array). -/
+def insertGlyphs (glyphs : Nat → Option Nat) (start : Nat) : (count : Nat) → RbModel.Buf → RbModel.M (RbModel.Buf × Bool)
   | 0, b => pure (b, true)
   | count + 1, b => do
-    let (b, ok) ← insertGlyphs' glyphs start count b
+    let (b, ok) ← insertGlyphs glyphs start count b
     if !ok then return (b, false)
-    match glyphs ((start + count) % 65536) with
+    match glyphs (start + count) with
     | none => pure (b, false)
-    | some g => do let b ← outputGlyph b g; pure (b, true)
+    | some g => do let b ← b.outputGlyph g; pure (b, true)
 
 /-- the shared middle of both insertion blocks: `[copy_glyph]; output_glyph × count; [skip_glyph]`.
     `false` = a `glyphs.get(i)?` failed and the transition returns at once. -/
-def insBlock (glyphs : Nat → Option Nat) (start count : Nat) (before : Bool) (b : Buf) : M (Buf × Bool) := do
-  let b ← if b.idx < b.len && !before then copyGlyph b else pure b
-  let (b, ok) ← insertGlyphs' glyphs start count b
+def insBlock (glyphs : Nat → Option Nat) (start count : Nat) (before : Bool) (b : RbModel.Buf) :
+    RbModel.M (RbModel.Buf × Bool) := do
+  let b ← if b.idx < b.len && !before then b.copyGlyph else pure b
+  let (b, ok) ← insertGlyphs glyphs start count b
   if !ok then return (b, false)
-  let b := if b.idx < b.len && !before then skipGlyph b else b
+  let b := if b.idx < b.len && !before then b.skipGlyph else b
   return (b, true)
 
+/-- `unsafe_to_break_from_outbuffer(mark, min(idx + 1, len))`: masks are not compared by this core, only the
+    asserts and the index checks of `_set_glyph_flags` are kept. -/
+def flagsFromOut (b : RbModel.Buf) (start end_ : Nat) : RbModel.M Unit := do
+  let e := min end_ b.len
+  if b.haveOutput then
+    if start > b.outLen then throw .assert
+    if b.idx > e then throw .assert
+    if start != b.outLen && b.outArr.length < b.outLen then throw .oob
+  pure ()
+
+/-- `if count != 0 && self.glyphs.get(start + count - 1).is_none() { count = 0 }` — a glyph list that is not
+    entirely inside the insertion table inserts nothing (HarfBuzz's `check_array`); `max_ops` has already
+    been charged with the original count. -/
+def clampCount (glyphs : Nat → Option Nat) (start count : Nat) : Nat :=
+  if count != 0 && (glyphs (start + count - 1)).isNone then 0 else count
+
 /-- `if entry.extra.marked_insert_index != 0xFFFF { … }`; `false` = the transition returns. -/
-def insMarked (glyphs : Nat → Option Nat) (cs : CS) (e : Entry) (b : Buf) : M (Buf × Bool) := do
+def insMarked (glyphs : Nat → Option Nat) (mark : Nat) (e : Entry) (b : RbModel.Buf) :
+    RbModel.M (RbModel.Buf × Bool) := do
   if e.x2 != 0xFFFF then
     let count := e.flags &&& INS_MARKED_INSERT_COUNT
     let b := { b with maxOps := b.maxOps - count }
     if b.maxOps ≤ 0 then return (b, false)
+    let count := clampCount glyphs e.x2 count
     let end_ := b.outLen
-    let (b, _) ← moveTo b cs.mark
+    let (b, _) ← b.moveTo mark
     let (b, ok) ← insBlock glyphs e.x2 count (bit e.flags INS_MARKED_INSERT_BEFORE) b
     if !ok then return (b, false)
-    let (b, _) ← moveTo b (end_ + count)
-    flagsFromOut b cs.mark (min (b.idx + 1) b.len)
+    let (b, _) ← b.moveTo (end_ + count)
+    flagsFromOut b mark (min (b.idx + 1) b.len)
     return (b, true)
   return (b, true)
 
+/-- the body of `if entry.extra.current_insert_index != 0xFFFF { … }` after the `max_ops` accounting -/
+def insCurrentBody (glyphs : Nat → Option Nat) (start count : Nat) (before dontAdvance : Bool) (b : RbModel.Buf) :
+    RbModel.M RbModel.Buf := do
+  let end_ := b.outLen
+  let (b, ok) ← insBlock glyphs start count before b
+  if !ok then return b
+  let (b, _) ← b.moveTo (if dontAdvance then end_ else end_ + count)
+  return b
+
 /-- `if entry.extra.current_insert_index != 0xFFFF { … }` -/
-def insCurrent (glyphs : Nat → Option Nat) (e : Entry) (b : Buf) : M Buf := do
+def insCurrent (glyphs : Nat → Option Nat) (e : Entry) (b : RbModel.Buf) : RbModel.M RbModel.Buf := do
   if e.x1 != 0xFFFF then
     let count := (e.flags &&& INS_CURRENT_INSERT_COUNT) >>> 5
     let b := { b with maxOps := b.maxOps - count }
     if b.maxOps < 0 then return b
-    let end_ := b.outLen
-    let (b, ok) ← insBlock glyphs e.x1 count (bit e.flags INS_CURRENT_INSERT_BEFORE) b
-    if !ok then return b
-    let (b, _) ← moveTo b (if bit e.flags INS_DONT_ADVANCE then end_ else end_ + count)
-    return b
-  return b
+    insCurrentBody glyphs e.x1 (clampCount glyphs e.x1 count) (bit e.flags INS_CURRENT_INSERT_BEFORE)
+      (bit e.flags INS_DONT_ADVANCE) b
+  else return b
+
+/-- src: InsertionCtx::transition (returns the new mark) -/
+def transition (glyphs : Nat → Option Nat) (mark : Nat) (e : Entry) (b : RbModel.Buf) :
+    RbModel.M (Nat × RbModel.Buf) := do
+  let markLoc := b.outLen
+  let (b, go) ← insMarked glyphs mark e b
+  if !go then return (mark, b)
+  let mark := if bit e.flags INS_SET_MARK then markLoc else mark
+  let b ← insCurrent glyphs e b
+  return (mark, b)
+
+end InsS
 
 /-- src: InsertionCtx::transition -/
-def insTransition (glyphs : Nat → Option Nat) (cs : CS) (e : Entry) (b : Buf) : M (CS × Buf) := do
-  let markLoc := b.outLen
-  let (b, go) ← insMarked glyphs cs e b
-  if !go then return (cs, b)
-  let cs := if bit e.flags INS_SET_MARK then { cs with mark := markLoc } else cs
-  let b ← insCurrent glyphs e b
-  return (cs, b)
+def insTransition (glyphs : Nat → Option Nat) (cs : CS) (e : Entry) (b : Buf) : M (CS × Buf) :=
+  match liftS (InsS.transition glyphs cs.mark e (toS b)) with
+  | .ok (mark, s) => .ok ({ cs with mark := mark }, ofS b s)
+  | .error p => .error p
 
 def insCtx (glyphs : Nat → Option Nat) : Ctx where
   inPlace := false
@@ -856,11 +839,21 @@ def insCtx (glyphs : Nat → Option Nat) : Ctx where
 
 /-! ### non-contextual (type 4) -/
 
-/-- the body of `for info in 0..ac.buffer.len { … }` of the non-contextual subtable.
-    D17: the range block looks at `buffer.cur(0)` — `idx` is never advanced by this loop. -/
+/-- the range block of the non-contextual subtable: the range of glyph `i`'s own cluster
+    (`ac.buffer.info[info].cluster`, as HarfBuzz's NoncontextualSubtable::apply; before the repair of D17
+    it was `cur(0)` of the never-advanced `idx`). -/
+def ncRange (rf : Array Range) (subFlags : Nat) (b : Buf) (i : Nat) : Option Nat → M (Bool × Option Nat)
+  | none => pure (false, none)
+  | some lr => do
+    let g ← rd b.info i
+    let range ← findRange rf lr g.cl
+    let r ← rdR rf range
+    pure (r.flags &&& subFlags == 0, some range)
+
+/-- the body of `for info in 0..ac.buffer.len { … }` of the non-contextual subtable. -/
 def ncStep (lk : Lookup) (rf : Array Range) (subFlags : Nat) (i : Nat) (st : Buf × Option Nat) :
     M (Buf × Option Nat) := do
-  let r ← rangeBlock rf subFlags st.1 st.2
+  let r ← ncRange rf subFlags st.1 i st.2
   if r.1 then pure (st.1, r.2)
   else do
     let g ← rd st.1.info i
